@@ -10,7 +10,8 @@ import numpy as np
 import scipy.sparse as sp
 from scipy.optimize import linprog
 
-HIGHS_OPTS = {"presolve": True, "primal_feasibility_tolerance": 1e-9, "dual_feasibility_tolerance": 1e-9}
+# CBC's documented default primal/dual tolerance is 1e-7; the stand-in and the reference use the same.
+HIGHS_OPTS = {"presolve": True, "primal_feasibility_tolerance": 1e-7, "dual_feasibility_tolerance": 1e-7}
 
 
 def pulp_to_matrix(lp):
@@ -69,12 +70,12 @@ class _QuietFd:
         return False
 
 
-def _lin(c, A_ub, b_ub, A_eq, b_eq, bounds):
+def _lin(c, A_ub, b_ub, A_eq, b_eq, bounds, opts=None):
     with _QuietFd():
-        return _lin0(c, A_ub, b_ub, A_eq, b_eq, bounds)
+        return _lin0(c, A_ub, b_ub, A_eq, b_eq, bounds, opts)
 
 
-def _lin0(c, A_ub, b_ub, A_eq, b_eq, bounds):
+def _lin0(c, A_ub, b_ub, A_eq, b_eq, bounds, opts=None):
     return linprog(
         c,
         A_ub=A_ub,
@@ -83,7 +84,7 @@ def _lin0(c, A_ub, b_ub, A_eq, b_eq, bounds):
         b_eq=b_eq if A_eq is not None else None,
         bounds=bounds,
         method="highs",
-        options=HIGHS_OPTS,
+        options=opts or HIGHS_OPTS,
     )
 
 
@@ -145,10 +146,15 @@ def solve_pulp_vertex(lp, rng, stats=None):
 
 
 def solve_matrix(c, A_ub, b_ub, A_eq, b_eq, bounds, maximize=False):
-    """Returns (status, objective value, x). status: 'optimal'|'infeasible'|'unbounded'|'error'."""
+    """Returns (status, objective value, x). status: 'optimal'|'infeasible'|'unbounded'|'error'.
+    Infeasibility is declared only if it persists at a primal tolerance of 1e-6 (ten times
+    CBC's): the code's round-2 pins are +-1e-5 relative and sit on the edge at 1e-7."""
     s = -1.0 if maximize else 1.0
     try:
         res = _lin(s * np.asarray(c, float), A_ub, b_ub, A_eq, b_eq, bounds)
+        if res.status == 2:
+            res = _lin(s * np.asarray(c, float), A_ub, b_ub, A_eq, b_eq, bounds,
+                       dict(HIGHS_OPTS, primal_feasibility_tolerance=1e-6))
     except Exception as e:  # pragma: no cover
         return "error:%s" % e, None, None
     if res.status == 0:
